@@ -27,7 +27,9 @@ OpName == IF op <= Len(DamageOps) THEN DamageOps[op].name ELSE <<"unclosed-flow-
 G == IF op <= Len(DamageOps) THEN Damaged(Base, DamageOps[op], pl) ELSE TruncDamage(op - Len(DamageOps), Base)
 Init == tape = <<>> /\ done = FALSE /\ op = 0 /\ pl = 0
 Next == \/ (~done /\ Len(tape) < L /\ \E c \in 0..(C - 1) : tape' = Append(tape, c) /\ UNCHANGED <<done, op, pl>>)
-        \/ (~done /\ (Len(tape) = L \/ Len(tape) = 0) /\ done' = TRUE /\ tape' = tape /\ op' \in 1..NOps /\ pl' \in 0..1)
+        \/ (~done /\ (Len(tape) = L \/ Len(tape) = 0) /\ done' = TRUE /\ tape' = tape /\ \E o \in 1..NOps, q \in 0..5 :
+                /\ (q >= 2 => (o <= Len(DamageOps) /\ (DamageOps[o].kind = "inline") = TRUE))      \* placements 2..5 exist for inline fragments only
+                /\ op' = o /\ pl' = q)
 ModelRejects == RunAll(G, PInit(FALSE), <<>>).err # ""
 Out == done => PrintT(<<"REPLAY", ToJson([info |-> <<OpName, pl>>, text |-> G, reject |-> TRUE, model |-> ModelRejects])>>)
 ===========================================================================
